@@ -24,6 +24,7 @@ Definition guard_tbl (f : string) : guard :=
   then GLocks [L_broker; L_thr]     (* written under both; the getters read under the first, graph.process under the second *)
   else if mem f ["eventlogger.graph.roots"; "eventlogger.graphMap.m"] then GFree     (* sync.Map: internally synchronised *)
   else if String.eqb f "eventlogger.Broker.clock" then GImmutable                   (* only the test helper StopTimeAt writes it *)
+  else if String.eqb f "eventlogger.graph.roots!" then GLock L_broker                 (* Store / Delete on a graph's roots: registry mutations *)
   else if starts "eventlogger.Broker." f then GLock L_broker
   else if starts "eventlogger.nodeUsage." f then GLock L_broker
   else if starts "eventlogger.graph." f then GLock L_broker
@@ -112,6 +113,13 @@ Definition contracts_C12_waits (pr : program) : contracts := mk (fun _ => GFree)
 (* C15's side condition: only the FileSink's clock reads (pseudo field clock!, see translate/) are constrained *)
 Definition contracts_clock (pr : program) : contracts :=
   mk (fun f => if String.eqb f "eventlogger.FileSink.clock!" then GLock "eventlogger.FileSink.l" else GFree) no_user_acq [] pr.
+
+(* C04's atomicity side condition: the three maps that make up the registry (b.nodes, b.graphs, every graph's roots -- the latter
+   through the pseudo field roots!, written by the translator at every Store / Delete) are mutated only while Broker.lock is held
+   in write mode: a registry call's effect on them falls into ONE critical section as far as the maps go *)
+Definition registry_maps : list string := ["eventlogger.Broker.nodes"; "eventlogger.Broker.graphs"; "eventlogger.graph.roots!"].
+Definition contracts_registry (pr : program) : contracts :=
+  mk (fun f => if mem f registry_maps then GLock L_broker else GFree) no_user_acq [] pr.
 
 (* the audited concurrency constructs of the library: goroutine starts and blocking waits that are not mutex operations.
    The dispatch protocol of graph.process / doProcess (C03's subject) and the channel sink's select; nothing else. *)
